@@ -41,8 +41,8 @@ func (t *Truth) explicitStartCovering(rep string, after, before int) bool {
 		}
 		if c.Op == "scale" {
 			base := rep
-			if i := strings.LastIndexByte(rep, '-'); i > 0 {
-				base = rep[:i]
+			if i := strings.LastIndexAny(rep, "-#"); i > 0 {
+				base = rep[:i] // ("name#k": replica k launched while the names were being changed)
 			}
 			if c.Arg != rep && c.Arg != base && !strings.HasPrefix(c.Arg, base+"-") {
 				continue
@@ -316,8 +316,8 @@ func checkC04(sc *Scenario, t *Truth) []Violation {
 			vs = append(vs, Violation{"C04", "exit-code-not-of-a-trigger", fmt.Sprint(t.RunCode), fmt.Sprintf("Run() returned exit code %d; triggering processes produced {%s}", t.RunCode, strings.Join(cs, "; ")), t.RunRet})
 		}
 	}
-	// liveness: natural completion expected
-	if sc.Arm == "natural" {
+	// liveness: natural completion expected (with a daemon: completion through the trigger)
+	if sc.Arm == "natural" || sc.Arm == "daemontrigger" {
 		var mainSD *Call
 		for _, c := range t.Calls {
 			if c.Client == "main" && c.Op == "shutdown" {
@@ -483,6 +483,15 @@ func checkC12(sc *Scenario, t *Truth) []Violation {
 	sd := t.firstShutdownSeq(sc)
 	if sd < 0 {
 		return nil
+	}
+	// "... and the shutdown still completes"
+	if sc.Strategy.StallPermille == 0 {
+		for _, c := range t.Calls {
+			if c.Op == "shutdown" && c.RetSeq < 0 && t.EndT-c.CallT > 120*time.Second {
+				vs = append(vs, Violation{"C12", "ordered-shutdown-never-completed", c.Client, fmt.Sprintf("the ordered shutdown requested by %s at t=%v had not returned %v later", c.Client, c.CallT, t.EndT-c.CallT), c.CallSeq})
+				break
+			}
+		}
 	}
 	// live instance per replica when the shutdown began
 	liveAt := map[string]*Inst{}
